@@ -96,8 +96,8 @@ def rule_check_options(P, R, r6):
             'consistency|STRICT', u.loc(), 'check_options removes STRICT under %s' % sorted(rm.get('STRICT', ())))
     rz = [(n, {tuple(f) for f in fm.at(n)}) for n in own_nodes(u.node) if isinstance(n, ast.Raise)]
     ok = len(rz) == 1 and rz[0][1] == {('self.synchro_options', False)} and \
-        rz[0][0].lineno > max([c.lineno for c in own_nodes(u.node) if isinstance(c, ast.Call)
-                               and call_text(c) == 'self.synchro_options.remove'] or [0])
+        (rz[0][0].lineno, rz[0][0].col_offset) > max([(c.lineno, c.col_offset) for c in own_nodes(u.node) if isinstance(c, ast.Call)
+                               and call_text(c) == 'self.synchro_options.remove'] or [(0, 0)])
     R.check(r6, ok, 'only an empty resulting synchro_options is refused', 'consistency|empty', u.loc(),
             'check_options raises under %s' % [sorted(x[1]) for x in rz])
     asg = [a for a in own_nodes(u.node) if isinstance(a, ast.Assign)
@@ -106,6 +106,41 @@ def rule_check_options(P, R, r6):
         ('SynchronizationOptions.TIMEOUT in self.synchro_options', True) in {tuple(f) for f in fm.at(asg[0])}
     R.check(r6, ok, 'TIMEOUT forces supvisors_failure_strategy to CONTINUE', 'consistency|TIMEOUT', u.loc(),
             'check_options does not force CONTINUE under TIMEOUT')
+
+
+def int_interval(facts, var):
+    """(lo, hi) that a set of facts imposes on the INTEGER variable var (None = unbounded)."""
+    lo = hi = None
+
+    def bound(op, c, pol):
+        nonlocal lo, hi
+        # var <op> c   with polarity pol
+        if not pol:
+            op = {ast.Lt: ast.GtE, ast.LtE: ast.Gt, ast.Gt: ast.LtE, ast.GtE: ast.Lt}[op]
+        if op is ast.GtE:
+            lo = c if lo is None else max(lo, c)
+        elif op is ast.Gt:
+            lo = c + 1 if lo is None else max(lo, c + 1)
+        elif op is ast.LtE:
+            hi = c if hi is None else min(hi, c)
+        elif op is ast.Lt:
+            hi = c - 1 if hi is None else min(hi, c - 1)
+    MIR = {ast.Lt: ast.Gt, ast.LtE: ast.GtE, ast.Gt: ast.Lt, ast.GtE: ast.LtE}
+    for f in facts:
+        n = getattr(f, 'node', None)
+        if not isinstance(n, ast.Compare):
+            continue
+        terms = [n.left] + list(n.comparators)
+        for (l, op, r) in zip(terms, n.ops, terms[1:]):
+            if type(op) not in MIR:
+                continue
+            if len(n.ops) > 1 and not f[1]:
+                continue        # the negation of a chained comparison is a disjunction: says nothing on its own
+            if isinstance(l, ast.Name) and l.id == var and isinstance(r, ast.Constant) and isinstance(r.value, int):
+                bound(type(op), r.value, f[1])
+            elif isinstance(r, ast.Name) and r.id == var and isinstance(l, ast.Constant) and isinstance(l.value, int):
+                bound(MIR[type(op)], l.value, f[1])
+    return lo, hi
 
 
 def run(P, R):
@@ -123,11 +158,18 @@ def run(P, R):
     for nm, (guard, excs, conv) in spec.items():
         u = P.unit('Parser.' + nm)
         fm = factmap(u)
+        # the store site: setattr(rules, <attr>, value) or the plain assignment rules.<attr> = value
+        rules_arg = u.node.args.args[-1].arg
         sets = [c for c in own_nodes(u.node) if isinstance(c, ast.Call) and call_text(c) == 'setattr']
-        R.require(len(sets) == 1, 'Parser.%s: expected one setattr' % nm)
+        plain = [a for a in own_nodes(u.node) if isinstance(a, ast.Assign) and isinstance(a.targets[0], ast.Attribute)
+                 and ast.unparse(a.targets[0].value) == rules_arg]
+        R.require(len(sets) + len(plain) == 1, 'Parser.%s: expected one store into the rules (setattr or assignment)' % nm)
+        stored_node = sets[0].args[2] if sets else plain[0].value
+        if not sets:
+            sets = plain            # (facts and positions are taken at the store statement)
         # what is stored, in closed form (no local names), and the handlers around the expression that converts: the
         # store itself may sit in the try body after the conversion or in the `else:` clause of that try
-        stored = closed_text(u, sets[0].args[2])
+        stored = closed_text(u, stored_node)
         want = closed_text(u, ast.parse(conv or 'klass[value]', mode='eval').body)
         cnodes = [x for x in own_nodes(u.node) if isinstance(x, (ast.Call, ast.Subscript)) and isinstance(x.ctx if
                   isinstance(x, ast.Subscript) else ast.Load(), ast.Load) and closed_text(u, x) == want]
@@ -141,7 +183,10 @@ def run(P, R):
                 'leaving the default' % (nm, sorted(caught), sorted(excs)))
         facts = {tuple(f) for f in fm.at(sets[0])}
         if guard:
-            R.check(r1, (guard, True) in facts, '%s stores only under %s' % (nm, guard), 'domain|%s|guard' % nm,
+            # the value is an int (conversion checked below): the order facts on it define an integer interval, however
+            # they are written (`value >= 0`, `not value < 0`, `0 <= value <= 100`, `not (value < 0 or value > 100)`)
+            want_iv = (0, None) if guard == 'value >= 0' else (0, 100)
+            R.check(r1, int_interval(fm.at(sets[0]), 'value') == want_iv, '%s stores only under %s' % (nm, guard), 'domain|%s|guard' % nm,
                     u.loc(), 'Parser.%s stores the value under %s instead of `%s`: an out-of-domain value replaces the '
                     'default' % (nm, sorted(f for f in facts if f[0] != 'str_value'), guard))
         R.check(r1, stored == want, '%s stores %s' % (nm, want), 'domain|%s|conversion' % nm, u.loc(),
@@ -245,7 +290,7 @@ def run(P, R):
             [ast.unparse(c.args[2]) for c in c0])
     loads = [c for c in own_nodes(u.node) if isinstance(c, ast.Call) and call_text(c).startswith('self.load_')
              and call_text(c) != 'self.load_model_rules']
-    ok = bool(rec) and bool(loads) and all(rec[0].lineno < c.lineno for c in loads) and \
+    ok = bool(rec) and bool(loads) and all((rec[0].lineno, rec[0].col_offset) < (c.lineno, c.col_offset) for c in loads) and \
         all(ast.unparse(c.args[0]) == 'program_elt' for c in loads) and ast.unparse(rec[0].args[0]) == 'model_elt'
     R.check(r3, ok, 'the referenced model is loaded first, the element\'s own values supersede it', 'recursion|order',
             u.loc(), 'load_model_rules does not load the referenced model before the values of the element itself')
